@@ -69,21 +69,24 @@ def files():
         fb.method(a, m, "Req", "Rsp", http=("get", "/v1/{name=a/*}:" + m.lower()))
     b = fb.service("Beta")
     fb.method(b, "List", "Req", "Rsp", http=("get", "/v1/{name=b/*}"))
+    # the same RPC name in a second service: names must be resolved per service
+    fb.method(b, "GetThing", "Req", "Rsp", http=("get", "/v1/{name=b/*}:thing"))
     return [fb.f]
 
 
-def metadata(transport: int, selective: bool, k0: bool, k1: bool, k2: bool, kb: bool) -> bool:
+def metadata(transport: int, selective: bool, k0: bool, k1: bool, k2: bool, kb: bool, kb2: bool) -> bool:
     """
     pre: 0 <= transport <= 2
-    pre: selective or (k0 and k1 and k2 and kb)
-    pre: k0 or k1 or k2 or kb
+    pre: selective or (k0 and k1 and k2 and kb and kb2)
+    pre: k0 or k1 or k2 or kb or kb2
     post: _
     """
     transport = conc(transport, 0, 2)
-    selective, keep = bool(selective), [bool(k0), bool(k1), bool(k2), bool(kb)]
+    selective, keep = bool(selective), [bool(k0), bool(k1), bool(k2), bool(kb), bool(kb2)]
     with untraced():
         opts = Options.build("transport=" + TRANSPORTS[transport])
-        listed = [f"{PKG}.Alpha.{m}" for m, k in zip(RPCS_ALPHA, keep) if k] + ([f"{PKG}.Beta.List"] if keep[3] else [])
+        listed = [f"{PKG}.Alpha.{m}" for m, k in zip(RPCS_ALPHA, keep) if k] + ([f"{PKG}.Beta.List"] if keep[3] else []) + \
+            ([f"{PKG}.Beta.GetThing"] if keep[4] else [])
         if selective:
             cfg = {"publishing": {"library_settings": [{"version": PKG, "python_settings": {"common": {
                 "selective_gapic_generation": {"methods": listed, "generate_omitted_as_internal": True}}}}]}}
@@ -94,7 +97,7 @@ def metadata(transport: int, selective: bool, k0: bool, k1: bool, k2: bool, kb: 
         t = TRANSPORTS[transport].split("+")
         kinds = (["grpc", "grpc-async"] if "grpc" in t else []) + (["rest"] if "rest" in t else [])
         exp_services = {}
-        for svc, rpcs, ks in (("Alpha", RPCS_ALPHA, keep[:3]), ("Beta", ["List"], keep[3:])):
+        for svc, rpcs, ks in (("Alpha", RPCS_ALPHA, keep[:3]), ("Beta", ["List", "GetThing"], keep[3:])):
             internal_any = selective and not all(ks)
             clients = {}
             for kind in kinds:
